@@ -63,7 +63,8 @@ pub fn ms_case(d: &[u8]) -> MsCase {
     }
     let mut ops = vec![];
     while c.left() >= 3 && ops.len() < 80 {
-        ops.push(match c.below(14) {
+        ops.push(match c.below(15) {
+            14 => MsOp::LogUnavailable { on: c.flag() },
             0..=5 => MsOp::Append { back: c.below(4), len: 1 + c.below(4), term_bump: c.below(2), size: c.below(40) },
             6..=7 => MsOp::Compact { back: c.below(4) },
             8..=9 => MsOp::ApplySnapshot { delta: (c.below(8) as i8) - 2, term_bump: c.below(2) },
